@@ -104,7 +104,8 @@ func (eng *Engine) lemmaFacts(g *VCGen, pkg string, only map[string]bool) []stri
 		if only != nil && !only[l.Name] {
 			continue
 		}
-		if hasProp(l.Props, "manual") {
+		if hasProp(l.Props, "manual") || (len(l.Pattern) == 0 && only == nil) {
+			// only lemmas written for automatic use (explicit patterns) are offered to the solver as quantified facts
 			continue
 		}
 		calls := map[string]bool{}
